@@ -38,6 +38,6 @@ def find_root(d, func, guess=1.0, **kwargs):
     except TypeError:
         raise Exception("It is required to use autograd.numpy instead of numpy within root functions, see the documentation for details.") from None
     deriv = - da / dx
-    res = derived_observable(lambda x, **kwargs: (x[0] + np.finfo(np.float64).eps) / (np.array(d).reshape(-1)[0].value + np.finfo(np.float64).eps) * root[0],
+    res = derived_observable(lambda x, **kwargs: 0 * (x[0] + np.finfo(np.float64).eps) + root[0],
                              np.array(d).reshape(-1), man_grad=np.array(deriv).reshape(-1))
     return res
